@@ -11,7 +11,7 @@ theorem nextToken_next_state (cls : Cls) (src p0 : List Rune) (c : Cur) (r : Run
     ∃ p1, ((nextToken cls c (r :: rs)).rest ≠ [] →
       src = p1 ++ (nextToken cls c (r :: rs)).rest ∧
         (nextToken cls c (r :: rs)).cur.nxt = posAfter p1) := by
-  obtain ⟨pre, a, b, e1, ab, bpre, hcur, htok, herr⟩ := nextToken_spec cls c (r :: rs)
+  obtain ⟨pre, a, b, e1, ab, bpre, _, hcur, htok, herr⟩ := nextToken_spec cls c (r :: rs)
   generalize nextToken cls c (r :: rs) = s at *
   constructor
   · rcases hcur with ⟨g1, _, _⟩ | ⟨g1, _⟩
